@@ -1,0 +1,43 @@
+//go:build verif
+
+package swap
+
+import "sort"
+
+// Verification hooks (add-only, compiled only with -tags verif).
+
+// VerifStateTableC29 is one state of one of the four state tables together
+// with the number of events the table accepts in that state.
+type VerifStateTableC29 struct {
+	Table  string
+	State  string
+	Events int
+}
+
+// VerifStateTablesC29 lists every state of the four swap state tables.
+func VerifStateTablesC29() []VerifStateTableC29 {
+	tables := []struct {
+		name string
+		st   States
+	}{
+		{"swap_in_receiver", getSwapInReceiverStates()},
+		{"swap_in_sender", getSwapInSenderStates()},
+		{"swap_out_receiver", getSwapOutReceiverStates()},
+		{"swap_out_sender", getSwapOutSenderStates()},
+	}
+	var out []VerifStateTableC29
+	for _, t := range tables {
+		names := make([]string, 0, len(t.st))
+		for s := range t.st {
+			names = append(names, string(s))
+		}
+		sort.Strings(names)
+		for _, n := range names {
+			out = append(out, VerifStateTableC29{Table: t.name, State: n, Events: len(t.st[StateType(n)].Events)})
+		}
+	}
+	return out
+}
+
+// VerifSwapsBucketC29 is the name of the bbolt bucket holding the swaps.
+func VerifSwapsBucketC29() []byte { return append([]byte(nil), swapBuckets...) }
